@@ -448,3 +448,235 @@ Proof.
        destruct Hpre as [-> | ->]; time_shape; rewrite Va, Vi, Vs;
        [rewrite ?adjust_pm, ?adjust_am, Cok by lia; reflexivity ..]).
 Qed.
+
+(* XTime.Render: "tt:mm:ss.ffffff" parses back to the time truncated to microseconds *)
+Lemma render_time_roundtrip : forall h mi s ns, valid_clock h mi s -> 0 <= ns < giga ->
+  time_from_string (render_time (Tod h mi s ns)) = Some (Tod h mi s (ns / 1000 * 1000)).
+Proof.
+  intros h mi s ns Vc Hns. pose proof Vc as (Hh & Hmi & Hs).
+  destruct (pad2_spec h ltac:(lia)) as (h1 & h2 & Ph & Dh1 & Dh2 & Vh).
+  destruct (pad2_spec mi ltac:(lia)) as (i1 & i2 & Pi & Di1 & Di2 & Vi).
+  destruct (pad2_spec s ltac:(lia)) as (s1 & s2 & Ps & Ds1 & Ds2 & Vs).
+  assert (Hus : 0 <= ns / 1000 <= 999999) by (unfold giga in Hns; Z.to_euclidean_division_equations; lia).
+  destruct (pad6_spec _ Hus) as (u1 & u2 & u3 & u4 & u5 & u6 & Pu & Du1 & Du2 & Du3 & Du4 & Du5 & Du6 & Vu).
+  unfold time_from_string, render_time. cbn [t_hour t_min t_sec t_ns]. rewrite Ph, Pi, Ps, Pu.
+  time_shape. unfold nanos_of_digits. cbn [firstn length]. rewrite Vu. change (10 ^ Z.of_nat (9 - 6)) with 1000.
+  rewrite Vh, Vi, Vs, adjust_plain, (clock_ok h mi s Vc) by lia. reflexivity.
+Qed.
+
+Lemma format_time_roundtrip : forall e h mi s ns, std_markers e -> valid_clock h mi s ->
+  time_from_string (format_time e (Tod h mi s ns)) = Some (Tod h mi (secs_of (e_tf e) s) 0).
+Proof.
+  intros e h mi s ns Hm Vc. unfold time_from_string, format_time. cbn [t_hour t_min t_sec].
+  apply (parse_time_text e h mi s [] Hm Vc). left. reflexivity.
+Qed.
+
+(* ------------------------------------------------------------------------------------------------ *)
+(* Part 6: dates, and datetimes in the environment formats *)
+
+Lemma date_text_ends : forall df y m d, in_year_range y -> 1 <= m <= 12 -> 1 <= d <= 31 ->
+  exists c r c', date_text df y m d = c :: r ++ [c'] /\ dig c /\ dig c'.
+Proof.
+  intros df y m d Hy Hm Hd. unfold in_year_range in Hy.
+  destruct (pad4_spec y Hy) as (y1 & y2 & y3 & y4 & Py & Dy1 & Dy2 & Dy3 & Dy4 & Vy).
+  destruct (pad2_spec m ltac:(lia)) as (m1 & m2 & Pm & Dm1 & Dm2 & Vm).
+  destruct (pad2_spec d ltac:(lia)) as (d1 & d2 & Pd & Dd1 & Dd2 & Vd).
+  assert (Ey : ((0 <=? y) && (y <=? 9999)) = true) by (apply andb_true_intro; split; apply Z.leb_le; lia).
+  unfold date_text, year_text. rewrite Ey, Py, Pm, Pd. destruct df; cbn [app].
+  - exists y1, [y2; y3; y4; 45%N; m1; m2; 45%N; d1], d2. repeat split; assumption.
+  - exists m1, [m2; 45%N; d1; d2; 45%N; y1; y2; y3], y4. repeat split; assumption.
+  - exists d1, [d2; 45%N; m1; m2; 45%N; y1; y2; y3], y4. repeat split; assumption.
+Qed.
+
+Lemma date_from_string_format : forall e y m d, valid_date y m d = true -> in_year_range y ->
+  date_from_string e (format_date e (y, m, d)) = Some (y, m, d).
+Proof.
+  intros e y m d V Hy. unfold date_from_string, format_date.
+  destruct (valid_date_ranges _ _ _ V) as (Rm & Rd & _).
+  destruct (date_text_ends (e_df e) y m d Hy Rm Rd) as (c & r & c' & E & Dc & Dc').
+  rewrite <- (app_nil_r (date_text (e_df e) y m d)).
+  rewrite parse_date_text; try assumption; try reflexivity.
+  - rewrite app_nil_r, E. apply trim_with_ends; apply dig_not_trim; assumption.
+  - intros c0 r0 H0. discriminate.
+Qed.
+
+(* XDate.Render is the YYYY-MM-DD form whatever the environment's date format *)
+Lemma date_from_string_render : forall e y m d, valid_date y m d = true -> in_year_range y ->
+  date_from_string e (render_date (y, m, d)) = Some (y, m, d).
+Proof.
+  intros e y m d V Hy. unfold date_from_string, render_date, parse_date, iso_date_text.
+  destruct (valid_date_ranges _ _ _ V) as (Rm & Rd & Dok).
+  destruct (date_text_ends YMD y m d Hy Rm Rd) as (c & r & c' & E & Dc & Dc').
+  unfold date_text in E. unfold trim_dt. rewrite E, trim_with_ends by (apply dig_not_trim; assumption). rewrite <- E. clear E.
+  unfold in_year_range in Hy. unfold year_text.
+  destruct (pad4_spec y Hy) as (y1 & y2 & y3 & y4 & Py & Dy1 & Dy2 & Dy3 & Dy4 & Vy).
+  destruct (pad2_spec m ltac:(lia)) as (m1 & m2 & Pm & Dm1 & Dm2 & Vm).
+  destruct (pad2_spec d ltac:(lia)) as (d1 & d2 & Pd & Dd1 & Dd2 & Vd).
+  assert (Ey : ((0 <=? y) && (y <=? 9999)) = true) by (apply andb_true_intro; split; apply Z.leb_le; lia).
+  assert (Em : ((m <=? 0) || (12 <? m)) = false) by (apply orb_false_iff; split; [apply Z.leb_gt|apply Z.ltb_ge]; lia).
+  rewrite Ey, Py, Pm, Pd. cbn [app firstn skipn].
+  unfold parse_iso_date, get_ymd. rewrite get_year4_4 by assumption. sb.
+  rewrite getnum_2 by assumption. sb. rewrite Vm, Em. sb.
+  rewrite getnum_2 by assumption. sb. rewrite Vy, Vd, Dok. reflexivity.
+Qed.
+
+Lemma time_text_last : forall e h mi s, std_markers e -> valid_clock h mi s ->
+  exists r c, time_text e h mi s = r ++ [c] /\ is_trimc c = false.
+Proof.
+  intros e h mi s (Eam & Epm) (Hh & Hmi & Hs).
+  destruct (pad2_spec mi ltac:(lia)) as (i1 & i2 & Pi & Di1 & Di2 & Vi).
+  destruct (pad2_spec s ltac:(lia)) as (s1 & s2 & Ps & Ds1 & Ds2 & Vs).
+  unfold time_text, ampm_text. rewrite Eam, Epm, Pi, Ps. destruct (e_tf e).
+  - exists (pad2 h ++ [58%N; i1]), i2. split; [rewrite <- app_assoc; reflexivity|apply dig_not_trim; assumption].
+  - exists (num_text (hour12 h) ++ [58%N; i1; i2; 32%N] ++ [if 12 <=? h then 112%N else 97%N]), 109%N.
+    split; [|reflexivity]. rewrite <- !app_assoc. destruct (12 <=? h); reflexivity.
+  - exists (pad2 h ++ [58%N; i1; i2; 58%N; s1]), s2. split; [rewrite <- app_assoc; reflexivity|apply dig_not_trim; assumption].
+  - exists (num_text (hour12 h) ++ [58%N; i1; i2; 58%N; s1; s2; 32%N] ++ [if 12 <=? h then 112%N else 97%N]), 109%N.
+    split; [|reflexivity]. rewrite <- !app_assoc. destruct (12 <=? h); reflexivity.
+Qed.
+
+(* neither ISO datetime layout accepts "date format, space, ..." *)
+Lemma parse_iso_layout_format : forall b df y m d rest, in_year_range y -> 1 <= m <= 12 -> 1 <= d <= 31 ->
+  parse_iso_layout b (date_text df y m d ++ 32%N :: rest) = None.
+Proof.
+  intros b df y m d rest Hy Hm Hd. unfold in_year_range in Hy.
+  destruct (pad4_spec y Hy) as (y1 & y2 & y3 & y4 & Py & Dy1 & Dy2 & Dy3 & Dy4 & Vy).
+  destruct (pad2_spec m ltac:(lia)) as (m1 & m2 & Pm & Dm1 & Dm2 & Vm).
+  destruct (pad2_spec d ltac:(lia)) as (d1 & d2 & Pd & Dd1 & Dd2 & Vd).
+  assert (Ey : ((0 <=? y) && (y <=? 9999)) = true) by (apply andb_true_intro; split; apply Z.leb_le; lia).
+  assert (Em : ((m <=? 0) || (12 <? m)) = false) by (apply orb_false_iff; split; [apply Z.leb_gt|apply Z.ltb_ge]; lia).
+  unfold date_text, year_text. rewrite Ey, Py, Pm, Pd. unfold parse_iso_layout, get_ymd. destruct df; cbn [app].
+  - rewrite get_year4_4 by assumption. sb. rewrite getnum_2 by assumption. sb. rewrite Vm, Em. sb.
+    rewrite getnum_2 by assumption. sb. reflexivity.
+  - rewrite get_year4_dash3. reflexivity.
+  - rewrite get_year4_dash3. reflexivity.
+Qed.
+
+(* Format(env) of valid fields parses to the instant time.Date makes of the fields at the rendered precision *)
+Lemma format_fields_roundtrip : forall offset e f, std_markers e -> valid_fields f -> in_year_range (f_year f) ->
+  datetime_from_string offset e (format_of_fields e f)
+  = Some (from_wall offset (wall_of (f_year f) (f_month f) (f_day f) (f_hour f) (f_min f) (secs_of (e_tf e) (f_sec f)))
+          * giga).
+Proof.
+  intros offset e [y m d h mi s ns] Hm (V & Vc & Hns) Hy.
+  cbn [f_year f_month f_day f_hour f_min f_sec f_ns] in *.
+  destruct (valid_date_ranges _ _ _ V) as (Rm & Rd & _).
+  unfold datetime_from_string, format_of_fields. cbn [f_year f_month f_day f_hour f_min f_sec f_ns].
+  destruct (date_text_ends (e_df e) y m d Hy Rm Rd) as (c & r & c' & E & Dc & Dc').
+  destruct (time_text_last e h mi s Hm Vc) as (tr & tc & Et & Htc).
+  assert (Htrim : trim_dt (date_text (e_df e) y m d ++ [32%N] ++ time_text e h mi s)
+                  = date_text (e_df e) y m d ++ [32%N] ++ time_text e h mi s).
+  { rewrite E, Et.
+    replace ((c :: r ++ [c']) ++ [32%N] ++ tr ++ [tc]) with (c :: (r ++ [c'] ++ [32%N] ++ tr) ++ [tc])
+      by (cbn [app]; rewrite <- !app_assoc; reflexivity).
+    apply trim_with_ends; [apply dig_not_trim; assumption|assumption]. }
+  rewrite Htrim. change ([32%N] ++ time_text e h mi s) with (32%N :: time_text e h mi s) in *.
+  rewrite !parse_iso_layout_format by assumption.
+  rewrite parse_date_text; try assumption; try reflexivity.
+  - change (32%N :: time_text e h mi s) with ([32%N] ++ time_text e h mi s).
+    rewrite (parse_time_text e h mi s [32%N] Hm Vc) by (right; reflexivity).
+    cbn [t_hour t_min t_sec t_ns]. f_equal. lia.
+  - intros c0 r0 H0. inversion H0. reflexivity.
+Qed.
+
+(* the statement on instants: format in the environment's zone, parse in the same environment *)
+Lemma format_datetime_roundtrip : forall offset e t, std_markers e -> in_year_range (f_year (fields_of offset t)) ->
+  let f := fields_of offset t in
+  datetime_from_string offset e (format_datetime offset e t)
+  = Some (from_wall offset (wall_of (f_year f) (f_month f) (f_day f) (f_hour f) (f_min f) (secs_of (e_tf e) (f_sec f)))
+          * giga).
+Proof.
+  intros offset e t Hm Hy f. unfold format_datetime. apply format_fields_roundtrip; try assumption.
+  apply fields_of_spec.
+Qed.
+
+(* ------------------------------------------------------------------------------------------------ *)
+(* Part 7: the wall-clock fields of the re-read instant *)
+
+Lemma fields_of_wall_of : forall y m d h mi s ns, valid_date y m d = true -> valid_clock h mi s ->
+  fields_of_wall (wall_of y m d h mi s) ns = Fields y m d h mi s ns.
+Proof.
+  intros y m d h mi s ns V (Hh & Hmi & Hs). unfold fields_of_wall, wall_of.
+  assert (Ed : (days_from_civil y m d * 86400 + h * 3600 + mi * 60 + s) / 86400 = days_from_civil y m d)
+    by (Z.to_euclidean_division_equations; lia).
+  assert (Es : (days_from_civil y m d * 86400 + h * 3600 + mi * 60 + s) mod 86400 = h * 3600 + mi * 60 + s)
+    by (Z.to_euclidean_division_equations; lia).
+  rewrite Ed, Es, (civil_from_days_from_civil y m d V). f_equal; Z.to_euclidean_division_equations; lia.
+Qed.
+
+(* time.Date gave an instant whose wall clock reads the requested local time [w] (it does whenever that local
+   time exists in the zone; inside a gap of the zone no instant reads [w]) *)
+Definition resolves (offset : Z -> Z) (w : Z) : Prop := wall offset (from_wall offset w * giga) = w.
+
+Lemma resolves_stable : forall offset w c, offset w = c -> offset (w - c) = c -> resolves offset w.
+Proof.
+  intros offset w c H1 H2. unfold resolves, wall, unix_of, from_wall. rewrite H1, H2.
+  replace ((w - c) * giga / giga) with (w - c) by (unfold giga; Z.to_euclidean_division_equations; lia).
+  rewrite H2. lia.
+Qed.
+
+Lemma resolves_fixed_zone : forall c w, resolves (fun _ => c) w.
+Proof. intros c w. apply (resolves_stable _ w c); reflexivity. Qed.
+
+Definition trunc_fields (tf : tfmt) (f : fields) : fields :=
+  Fields (f_year f) (f_month f) (f_day f) (f_hour f) (f_min f) (secs_of tf (f_sec f)) 0.
+
+Lemma format_datetime_fields : forall offset e t, std_markers e -> in_year_range (f_year (fields_of offset t)) ->
+  let f := fields_of offset t in
+  resolves offset (wall_of (f_year f) (f_month f) (f_day f) (f_hour f) (f_min f) (secs_of (e_tf e) (f_sec f))) ->
+  exists t', datetime_from_string offset e (format_datetime offset e t) = Some t'
+             /\ fields_of offset t' = trunc_fields (e_tf e) f.
+Proof.
+  intros offset e t Hm Hy f Hres. eexists. split; [apply format_datetime_roundtrip; assumption|].
+  fold f. destruct (fields_of_spec offset t) as ((V & (Hh & Hmi & Hs) & Hns) & _ & _). fold f in V, Hh, Hmi, Hs.
+  unfold fields_of. unfold resolves in Hres. rewrite Hres.
+  replace (from_wall offset (wall_of (f_year f) (f_month f) (f_day f) (f_hour f) (f_min f) (secs_of (e_tf e) (f_sec f)))
+           * giga mod giga) with 0 by (unfold giga; Z.to_euclidean_division_equations; lia).
+  unfold trunc_fields. apply fields_of_wall_of; [exact V|].
+  unfold valid_clock, secs_of. destruct (has_secs (e_tf e)); lia.
+Qed.
+
+(* ---- witnesses for what is NOT true ------------------------------------------------------------- *)
+
+(* a zone whose offset has seconds (America/Sao_Paulo before 1914: -3:06:28) *)
+Definition lmt_zone (_ : Z) : Z := -11188.
+Definition lmt_instant : Z := (days_from_civil 1800 5 6 * 86400 + 36897) * giga + 123456000.
+
+Lemma iso_seconds_witness :
+  in_year_range (f_year (fields_of lmt_zone lmt_instant)) /\ -86400 < lmt_zone (unix_of lmt_instant) < 86400
+  /\ datetime_from_string lmt_zone (Env DMY HM [97; 109]%N [112; 109]%N 2026) (iso lmt_zone lmt_instant)
+     = Some (lmt_instant - 28 * giga).
+Proof. vm_compute. repeat split; discriminate. Qed.
+
+(* Africa/Monrovia: -0:44:30 until 1972-01-07 00:44:30 UTC (unix 63593070), then UTC *)
+Definition monrovia (x : Z) : Z := if x <? 63593070 then -2670 else 0.
+Definition monrovia_env : env := Env MDY HMAP [97; 109]%N [112; 109]%N 2026.
+Definition monrovia_instant : Z := 63593075 * giga.
+
+Lemma gap_witness :
+  std_markers monrovia_env /\ in_year_range (f_year (fields_of monrovia monrovia_instant))
+  /\ fields_of monrovia monrovia_instant = Fields 1972 1 7 0 44 35 0
+  /\ exists t', datetime_from_string monrovia monrovia_env (format_datetime monrovia monrovia_env monrovia_instant) = Some t'
+                /\ fields_of monrovia t' = Fields 1972 1 6 23 59 30 0.
+Proof.
+  split; [split; reflexivity|]. split; [vm_compute; split; discriminate|]. split; [vm_compute; reflexivity|].
+  eexists. split; vm_compute; reflexivity.
+Qed.
+
+(* a locale whose pm marker is not "pm" (Arabic) *)
+Definition ara_env : env := Env DMY HMAP [1589]%N [1605]%N 2026.
+Lemma localized_witness :
+  fields_of (fun _ => 0) (1588784889 * giga) = Fields 2020 5 6 17 8 9 0
+  /\ exists t', datetime_from_string (fun _ => 0) ara_env (format_datetime (fun _ => 0) ara_env (1588784889 * giga)) = Some t'
+                /\ fields_of (fun _ => 0) t' = Fields 2020 5 6 5 8 0 0.
+Proof. split; [vm_compute; reflexivity|]. eexists. split; vm_compute; reflexivity. Qed.
+
+(* the hypotheses of the positive statements are satisfiable *)
+Example roundtrip_hyps_sat :
+  let offset := fun x : Z => if x <? 1000000000 then 3600 else 7200 in
+  let t := 1600000000123456789 in
+  let e := Env MDY HMSAP [97; 109]%N [112; 109]%N 2026 in
+  let f := fields_of offset t in
+  std_markers e /\ in_year_range (f_year f) /\ -86400 < offset (unix_of t) < 86400 /\ offset (unix_of t) mod 60 = 0
+  /\ resolves offset (wall_of (f_year f) (f_month f) (f_day f) (f_hour f) (f_min f) (secs_of (e_tf e) (f_sec f))).
+Proof. vm_compute. repeat split; try discriminate; reflexivity. Qed.
